@@ -26,7 +26,7 @@ for res in results:
     for o in res.obligations:
         tot += 1
         if o.verdict != "discharged" or "-a" in sys.argv:
-            print("   %-12s %6.2fs %s %s" % (o.verdict, o.time, o.name, (o.reason or "")[:200]))
+            print("   %-12s %6.2fs f=%s %s %s" % (o.verdict, o.time, getattr(o, "fuel_used", None), o.name, (o.reason or "")[:200]))
             if "-v" in sys.argv:
                 print("      goal:", o.goal)
                 for h in o.hyps: print("      hyp:", h)
